@@ -59,6 +59,7 @@ def run(P, rep, tier):
     rep.attempt(r7_snapshot_before_mutation, P, rep, ctx)
     rep.attempt(r8_resolution_owner, P, rep, ctx)
     rep.attempt(r9_handle_provenance, P, rep, ctx)
+    rep.attempt(r10_copy_into_patch_callers, P, rep, ctx)
     rep.floor("C01.R1", 7)
     rep.floor("C01.R2", 6)
     rep.floor("C01.R3", 4)
@@ -71,6 +72,24 @@ def run(P, rep, tier):
         from .pinned import refine
 
         refine(P, rep, ctx, "C01")
+
+
+def r10_copy_into_patch_callers(P, rep, ctx):
+    """IH5Dataset.copy_into_patch stores a *non-virtual* copy of the value in the newest container, which by the resolution
+    rule ends the downward scan: attributes of the dataset kept in older containers are no longer seen.  It is a user-level
+    escape hatch; no operation of the overlay itself may go through it (who-may-call rule, expected callers: none)."""
+    fi = P.func(f"{O}.IH5Dataset.copy_into_patch")
+    callers = []
+    for f_ in P.functions.values():
+        if f_ is fi:
+            continue
+        for c in local_calls(f_.node):
+            if isinstance(c.func, ast.Attribute) and c.func.attr == "copy_into_patch":
+                callers.append((f_, c))
+    for f_, c in callers:
+        rep.fail("C01.R10", f_.qual, f"{f_.name}: {norm(c)[:60]}", f"{f_.qual} calls copy_into_patch: the dataset is re-created as a non-virtual node in the newest container and its attributes stored in older containers disappear from the view (and the returned handle differs from what the same operation gives on a single container)", f_.loc(c))
+    if not callers:
+        rep.ok("C01.R10", fi.qual, "no library code goes through copy_into_patch", fi.loc())
 
 
 def _newest(*tails):
@@ -216,6 +235,14 @@ def r2_delete_marker(P, rep, ctx):
         if not stores:
             continue
         if not has_patch_idiom(f) and not g.every_path_passes(stores, g.exit):
+            # the marker is conditional on something else.  Where the item was FOUND (container index of the sighting) is
+            # not a substitute for "the record has patches": an item that lives in the newest container can still shadow
+            # older sightings of the same path, which only the marker hides
+            where = [norm(f.xe_at(n.idx, n.exprs[0])) for n in g.nodes if n.kind == "test" and n.exprs and n.exprs[0] is not None]
+            where = [a for a in where if any(k in a for k in ("_expect_real_item_idx(", "_find(", "_cidx", "_children("))]
+            if where:
+                rep.fail("C01.R2", fi.qual, f"deletion marker on patch paths of {fi.name}", f"{fi.name} decides whether to leave a deletion marker from where the item was found (`{where[0][:80]}`) instead of from whether the record has patches: deleting an item that was re-created in the newest container lets the older sighting show through again", fi.loc())
+                continue
             raise AnalysisError(f"C01.R2: no recognised 'record has patches' test in {q}")
         bad = may_be_patch_exits(f, set(stores))
         rep.check(bad is None, "C01.R2", fi.qual, "every normal exit on which the record may have patches passed the deletion-marker store", fi.loc(), construct=f"deletion marker on patch paths of {fi.name}",
